@@ -164,20 +164,20 @@ def coinSlots (s : St) (b : Blk) : Nat :=
   | none => 1
 
 /-- all outcomes of `importChain` over the resolutions of the coin, as (state, result string) -/
-def importChainND (t : Tree) (s : St) (chain : List Blk) : List (St × String) :=
+def importChainND (t : Tree) (s : St) (chain : List Blk) (wide : Bool := false) : List (St × String) :=
   let rec go (cands : List St) (bs : List Blk) (i : Nat) (fin : List (St × String)) : List (St × String) :=
     match bs with
     | [] => fin ++ cands.map (fun c => (c, "ok"))
     | b :: rest =>
-      let outs := cands.flatMap fun c => (coinVecs (coinSlots c b)).map fun v => importOne c b v
+      let outs := cands.flatMap fun c => (if wide then boolVecs (min (coinSlots c b) 12) else coinVecs (coinSlots c b)).map fun v => importOne c b v
       let errs := outs.filterMap fun o => o.err.map fun e =>
         (o.st, if e == .modelPanic then "panic" else errStr e ++ "@" ++ toString i)
       let oks := dedupBy (render t "") ((outs.filter (fun o => o.err.isNone)).map (·.st))
       go oks rest (i + 1) (fin ++ errs)
   go [s] (contigPrefix chain) 0 []
 
-def hImportChainND (t : Tree) (s : HSt) (chain : List Blk) : List (HSt × String) :=
-  let outs := (hdrCoinVecs chain.length).map fun v => hImportChain s chain v
+def hImportChainND (t : Tree) (s : HSt) (chain : List Blk) (wide : Bool := false) : List (HSt × String) :=
+  let outs := (if wide then boolVecs (min chain.length 12) else hdrCoinVecs chain.length).map fun v => hImportChain s chain v
   dedupBy (fun x => hrender t x.2 x.1) (outs.map fun (o, i) =>
     match o.err with
     | some .modelPanic => (o.st, "panic")
@@ -199,8 +199,8 @@ def mImportChainND (t : Tree) (s : MSt) (chain : List Blk) : List (MSt × String
       go oks rest (i + 1) (fin ++ errs)
   go [s] (contigPrefix chain) 0 []
 
-def mImportHeadersND (t : Tree) (s : MSt) (chain : List Blk) : List (MSt × String) :=
-  let outs := (hdrCoinVecs chain.length).map fun v => mImportHeaders s chain v
+def mImportHeadersND (t : Tree) (s : MSt) (chain : List Blk) (wide : Bool := false) : List (MSt × String) :=
+  let outs := (if wide then boolVecs (min chain.length 12) else hdrCoinVecs chain.length).map fun v => mImportHeaders s chain v
   dedupBy (fun x => mrender t x.2 x.1) (outs.map fun (o, i) =>
     match o.err with
     | some .modelPanic => (o.st, "panic")
@@ -328,17 +328,17 @@ inductive Cands
   | mixed (cs : List MSt)
   | xmixed (cs : List XSt)
 
-def stepND (t : Tree) (c : Cands) (op : Op) : List (Cands × String) :=
+def stepND (t : Tree) (c : Cands) (op : Op) (wide : Bool := false) : List (Cands × String) :=
   match c, op with
   | .full cs, .ins ids =>
-    (cs.flatMap fun s => importChainND t s (blocksOf t ids)).map fun (s, r) => (.full [s], render t r s)
+    (cs.flatMap fun s => importChainND t s (blocksOf t ids) wide).map fun (s, r) => (.full [s], render t r s)
   | .full cs, .setHead n =>
     cs.map fun s =>
       let o := setHead s n
       (.full [o.st], render t (match o.err with | some e => errStr e | none => "ok") o.st)
   | .full cs, .reopen => cs.map fun s => (.full [reopen s], render t "ok" (reopen s))
   | .hdrs cs, .hdr ids =>
-    (cs.flatMap fun s => hImportChainND t s (blocksOf t ids)).map fun (s, r) => (.hdrs [s], hrender t r s)
+    (cs.flatMap fun s => hImportChainND t s (blocksOf t ids) wide).map fun (s, r) => (.hdrs [s], hrender t r s)
   | .hdrs cs, .setHead n =>
     cs.map fun s =>
       let o := hSetHead s n
@@ -347,17 +347,17 @@ def stepND (t : Tree) (c : Cands) (op : Op) : List (Cands × String) :=
   | .mixed cs, .ins ids =>
     (cs.flatMap fun s => mImportChainND t s (blocksOf t ids)).map fun (s, r) => (.mixed [s], mrender t r s)
   | .mixed cs, .hdr ids =>
-    (cs.flatMap fun s => mImportHeadersND t s (blocksOf t ids)).map fun (s, r) => (.mixed [s], mrender t r s)
+    (cs.flatMap fun s => mImportHeadersND t s (blocksOf t ids) wide).map fun (s, r) => (.mixed [s], mrender t r s)
   | .xmixed cs, .ins ids =>
     (cs.flatMap fun s =>
       let chain := blocksOf t ids
-      (importChainND t (raiseTop s.full chain) chain).map fun (st, r) =>
+      (importChainND t (raiseTop s.full chain) chain wide).map fun (st, r) =>
         (({ full := st, hdrs := fun k => match st.store k with | some b => some b | none => s.hdrs k } : XSt), r)).map
       fun (s, r) => (.xmixed [s], xrender t r s)
   | .xmixed cs, .hdr ids =>
     (cs.flatMap fun s =>
       let chain := blocksOf t ids
-      (hImportChainND t (toH s) chain).map fun (h, r) =>
+      (hImportChainND t (toH s) chain wide).map fun (h, r) =>
         (({ full := { raiseTop s.full chain with td := h.td, canon := h.canon, hhead := h.hhead }, hdrs := h.store } : XSt), r)).map
       fun (s, r) => (.xmixed [s], xrender t r s)
   | _, _ => []
@@ -372,6 +372,8 @@ def mergeCands (xs : List Cands) : Cands :=
     | a, _ => a) (match xs with
       | (.hdrs _) :: _ => .hdrs [] | (.mixed _) :: _ => .mixed [] | (.xmixed _) :: _ => .xmixed [] | _ => .full [])
 
+def tooManyTies : String := "too-many-ties:the-driver-follows-at-most-3-heads-beyond-6-block-or-8-header-coins"
+
 /-- replay; returns (model output, agreed?, index of first mismatch, spec verdict on the Go dump at the mismatch) -/
 def replay (prop : String) (t : Tree) (headers : Bool) (c0 : Cands) (ops : List Op) (dumps : List String)
     (mixed : Bool := false) :
@@ -384,12 +386,16 @@ def replay (prop : String) (t : Tree) (headers : Bool) (c0 : Cands) (ops : List 
     | op :: ops', d :: dumps' =>
       let importsOnly := importsOnly && (match op with | .setHead _ => false | _ => true)
       let outs := stepND t c op
-      let good := outs.filter fun x =>
+      let isHit : Cands × String → Bool := fun x =>
         if mixed && prop == "C02" then x.2 == projMixed d else proj prop x.2 == proj prop d
+      let good := outs.filter isHit
       match good with
       | [] =>
         let shown := match outs with | x :: _ => x.2 | [] => "no-model-outcome"
-        let why := match parseDump d with
+        -- Is the observed outcome one that the model produces under a coin resolution the driver did not follow (more than 3
+        -- exact ties within one import of more than 6 resp. 8 calls, `coinVecs_complete`)?  Then say so instead of
+        -- reporting a model disagreement.
+        let why := if (stepND t c op true).any isHit then some tooManyTies else match parseDump d with
           | none => some "unparsable-dump"
           | some pd =>
             if mixed && prop == "C02" then specC02 t true false pd
@@ -442,7 +448,7 @@ def handle (prop : String) (l : String) : String :=
             else
               match why with
               | none => m ++ "\tspec-ok"
-              | some w => m ++ "\tspec-reject:" ++ w
+              | some w => if w == tooManyTies then m ++ "\t" ++ w else m ++ "\tspec-reject:" ++ w
   | _ => "bad-op\tagree"
 
 end Aqv.ChainReplay
